@@ -86,6 +86,15 @@ CHECKS = {
              note=BASE_NOTE + "Sequential callers; a killed process is outside the statement (clean shutdown). rkyv encoding of the marker file and fs::rename are modelled as a map update. "
              "Full strength after fixes c8a8099 + 0bd3aa7 (markers flushed on drop).",
              tech="Lean 4 proof (inductive invariant over operation histories + frame lemmas) + differential correspondence + oracle", ref="§6 C17"),
+ "C16": dict(text="Partial. Theorems: C16_completion_order_irrelevant (the completed writes of a batch whose byte ranges are pairwise disjoint leave the same "
+             "entries in every file whatever order the kernel completes them in - the one degree of freedom the io_uring path has over the sequential mmap path), "
+             "C16_plan_ranges_disjoint_in_block (entries planned back to back into a block are pairwise disjoint), batch_writes_are_applyAll (ties the statement to "
+             "the model's writerBatchWrite). Everything else is decided by the double correspondence: every generated program (appends, batches, rejected "
+             "operations, both read APIs, peeks, offset reads, clean reopen, process restarts; both geometries) is executed once per backend in separate "
+             "processes; the two output streams must be equal line by line and each must equal the backend-independent model's.",
+             note=BASE_NOTE + "The model has one write path and one read path (the decisions are shared code in writer.rs / walrus_read.rs); kernel behaviour "
+             "(pread/mmap coherence, io_uring ordering, short reads) is exercised by the runs, not modelled. Sequential callers, no injected faults.",
+             tech="Lean 4 proof (commutation of disjoint writes up to permutation, induction over List.Perm) + double differential correspondence (fd vs mmap vs model)", ref="§6 C16"),
 }
 NOT_APPLICABLE = {
  "C19": "statement about the vendored openraft core + QUIC transport + tokio runtime, none of which can be built or run offline here (tokio, quinn, rustls, futures absent from the registry); a free-standing Raft proof would be tied to nothing (DESIGN.md §6 C19)",
